@@ -47,7 +47,7 @@ var lim = interp.Limits{MaxElem: 1 << 21}
 func check(ctx *pbt.Ctx, c Case) error {
 	flags := interp.Flags(c.Flags)
 	model := c.Ctx.Model(c.Unlock, c.Lock)
-	r := interp.VerifyScript(c.Unlock, c.Lock, flags, interp.TxChecker{Tx: model, Idx: 0, Amount: c.Ctx.Amount}, true, lim)
+	r := interp.VerifyScript(c.Unlock, c.Lock, flags, interp.TxChecker{Tx: model, Idx: c.Ctx.Index(), Amount: c.Ctx.Amount}, true, lim)
 	if r.BudgetHit {
 		ctx.Discard("over_budget")
 		return nil
@@ -67,7 +67,7 @@ func check(ctx *pbt.Ctx, c Case) error {
 	tx.Inputs = append(tx.Inputs, other)
 	model2 := ref.FromLib(tx)
 	// the reference digest context must match what the library sees
-	r = interp.VerifyScript(c.Unlock, c.Lock, flags, interp.TxChecker{Tx: model2, Idx: 0, Amount: c.Ctx.Amount}, true, lim)
+	r = interp.VerifyScript(c.Unlock, c.Lock, flags, interp.TxChecker{Tx: model2, Idx: c.Ctx.Index(), Amount: c.Ctx.Amount}, true, lim)
 	if r.BudgetHit {
 		ctx.Discard("over_budget")
 		return nil
